@@ -399,7 +399,7 @@ func c16RandPatterns(r *rand.Rand, tree []c16Entry, n int) []string {
 			paths = append(paths, e.Path+"/inner")
 		}
 	}
-	fixed := []string{"*", ".*", "*/", "*/*", "*/.*", ".*/", "./*", "*//", "*//*", "?", "??*", "[a-b]*", "*.go", "<ROOT>/*", "<ROOT>/*/", "<ROOT>/.*", "<ROOT>//*", "a", "a/", "nope", "nope/*", "*/nope", ".", "..", "../*", "./", "*/../*", `\*`, `*\/`, `*\/*`, "[!.]*", `\.*`, "*/*/", "*/*/*"}
+	fixed := []string{"*", ".*", "*/", "*/*", "*/.*", ".*/", "./*", "*//", "*//*", "?", "??*", "[a-b]*", "*.go", "<ROOT>/*", "<ROOT>/*/", "<ROOT>/.*", "<ROOT>//*", "a", "a/", "nope", "nope/*", "*/nope", ".", "..", "../*", "./", "*/../*", `\*`, `*\/`, `*\/*`, "[!.]*", `\.*`, "*/*/", "*/*/*", "a//", "nope//", "*/a//", "<ROOT>/nope///", "a.go//", "*/a.go//"}
 	out := append([]string(nil), fixed...)
 	for len(out) < n {
 		p := pick(r, paths)
@@ -435,8 +435,13 @@ func c16RandPatterns(r *rand.Rand, tree []c16Entry, n int) []string {
 				b.WriteString(c16GenComp(r, c))
 			}
 		}
-		if r.IntN(5) == 0 {
+		switch r.IntN(15) {
+		case 0, 1, 2:
 			b.WriteString("/")
+		case 3:
+			b.WriteString("//") // several trailing separators still select directories only
+		case 4:
+			b.WriteString("///")
 		}
 		out = append(out, b.String())
 	}
